@@ -17,7 +17,7 @@ from . import graphcommon as gc
 
 MODULE = "NadaVerif.Props.C08"
 TRANSLATORS = None
-THEOREMS = [f"NadaVerif.C08.{n}" for n in (
+THEOREMS = ["NadaVerif.C08.helpers_current_after_history"] + [f"NadaVerif.C08.{n}" for n in (
     "compile_mono", "lookup_append", "fuel_append", "earlier_history_irrelevant", "later_traces_irrelevant",
     "only_reachable_emitted", "related_after", "trace_shift_equivariant", "after_any_history", "shifted_lookup",
     "compile_after_history", "compile_after_history_fails", "after_history_fails_alike", "outputs_follow_registers")] + [
@@ -544,6 +544,85 @@ def failed_then_corrected(res):
     return n
 
 
+def helper_registry_correspondence(res, tier):
+    """K13 — tie of `Runtime.compileFrom` (Lean: the registry of helper modules as a state machine, proved to hold only the
+    program's own, current helpers after every history) to `compile._program_imports`: random histories over two project
+    directories with the same helper names — compilations, and edits of helper files in between — run in a new interpreter;
+    every helper file reports its own execution.  The model, given the same history (file versions as stamps), must predict
+    exactly which helper files each compilation executes; and each program's MIR must carry the versions that are on disk."""
+    rng = R.make("C08helpers")
+    n = 6 if tier == "quick" else 60
+    tmp = tempfile.mkdtemp(prefix="nvc08k")
+    stats = {"histories": 0, "compilations": 0, "disagreements": 0}
+    helpers = ["rates", "fees", "limits"]
+
+    def helper_text(name, d, version):
+        # (the size grows with the version, so that the file's stamp changes whatever the clock's resolution)
+        return f"import builtins\nbuiltins.NV_EXEC.append({name!r})\nVERSION = {1000 * (helpers.index(name) + 1) + 100 * (d == 'b') + version}\n" + "# edited\n" * version
+
+    def program_text(names):
+        imports = "".join(f"import {nm}\n" for nm in names)
+        terms = " + ".join(f"Integer({nm}.VERSION)" for nm in names)
+        return f"from nada_dsl import *\n{imports}\n\ndef nada_main():\n    p = Party(name='P')\n    a = SecretInteger(Input(name='a', party=p))\n" \
+               f"    return [Output(a * Integer(7){' + ' if names else ''}{' + '.join(f'a * Integer({nm}.VERSION)' for nm in names)}, 'o', p)]\n"
+    try:
+        reqs, reals = [], []
+        for h in range(n):
+            root = os.path.join(tmp, f"h{h}")
+            version = {}
+            script, steps = [], []
+            for d in ("a", "b"):
+                os.makedirs(os.path.join(root, d), exist_ok=True)
+                for nm in helpers:
+                    version[(d, nm)] = 0
+                    script.append(["edit", os.path.join(root, d, nm + ".py"), helper_text(nm, d, 0)])
+            for k in range(rng.randint(3, 7)):
+                if k and rng.random() < 0.5:
+                    d, nm = rng.choice(["a", "b"]), rng.choice(helpers)
+                    version[(d, nm)] += 1
+                    script.append(["edit", os.path.join(root, d, nm + ".py"), helper_text(nm, d, version[(d, nm)])])
+                d = rng.choice(["a", "a", "b"])
+                names = rng.sample(helpers, rng.randint(1, 3))
+                prog = os.path.join(root, d, f"prog{k}.py")
+                script.append(["edit", prog, program_text(names)])
+                script.append(["compile", prog])
+                steps.append({"disk": [[dd, nm, v] for (dd, nm), v in version.items()], "dir": d, "names": names,
+                              "want": sorted(str(1000 * (helpers.index(nm) + 1) + 100 * (d == "b") + version[(d, nm)]) for nm in names)})
+            spath = os.path.join(root, "script.json")
+            with open(spath, "w", encoding="utf-8") as f:
+                json.dump(script, f)
+            env = dict(os.environ, PYTHONPATH=core.REPO + os.pathsep + os.path.join(core.VERIF, "harness"), PYTHONDONTWRITEBYTECODE="1")
+            p = subprocess.run([sys.executable, "-m", "nv.real.helper_hist", spath], cwd=root, env=env, capture_output=True, text=True, timeout=300)
+            try:
+                real = json.loads(p.stdout)
+            except ValueError:
+                raise core.Infra(f"helper_hist failed: {(p.stderr or p.stdout)[-300:]}")
+            reqs.append({"k": "helpers", "history": [{"disk": s_["disk"], "dir": s_["dir"], "names": s_["names"]} for s_ in steps]})
+            reals.append((steps, real, script))
+        for (steps, real, script), model in zip(reals, core.driver(reqs)):
+            if "error" in model:
+                raise core.Infra(f"helpers request rejected: {model}")
+            stats["histories"] += 1
+            stats["compilations"] += len(steps)
+            # the property, on the real run: each program's MIR carries the versions that are on disk when it is compiled
+            for k, (st, r) in enumerate(zip(steps, real)):
+                got = [x for x in r.get("literals", []) if x != "7"]
+                if "err" in r or sorted(got) != st["want"]:
+                    res.violation({"property": "C08", "kind": "helper-history", "script": script, "position": k, "want": st["want"], "got": r},
+                                  f"compilation {k + 1} of a history of compilations and helper edits (program of directory {st['dir']}/ importing {st['names']}): "
+                                  f"the MIR carries the helper constants {got or r.get('err')}, the files on disk say {st['want']}"[:400])
+                    break
+            if [r["executed"] for r in real] != model["executed"]:
+                stats["disagreements"] += 1
+                if stats["disagreements"] <= 2:
+                    k = next(i for i, (a, b) in enumerate(zip([r["executed"] for r in real], model["executed"])) if a != b)
+                    res.broken.append({"decl": "Runtime.compileFrom (Lean helper registry) vs helper files executed under compile._program_imports",
+                                       "msg": f"compilation {k + 1}: executed {real[k]['executed']}, the model predicts {model['executed'][k]}"})
+    finally:
+        shutil.rmtree(tmp, ignore_errors=True)
+    return stats
+
+
 def names_of(mir):
     out = set()
     out.update(("input", i["name"]) for i in mir["inputs"])
@@ -603,6 +682,7 @@ def run(res, tier):
     fp["same_named_helper_orders"] = same_named_helpers(res, tier)
     fp["nested_helper_edits"] = nested_helper_edit(res)
     fp["failed_then_corrected"] = failed_then_corrected(res)
+    fp["helper_registry_K13"] = helper_registry_correspondence(res, tier)
     for idx, d, combined in diffs[:5]:
         res.broken.append({"decl": "K3 correspondence (history run: model vs real implementation)",
                            "msg": json.dumps(d, default=str)[:500], "history": combined})
@@ -634,6 +714,30 @@ class _Collect:
 
 
 def replay(obj):
+    if obj.get("kind") == "helper-history":
+        tmp = tempfile.mkdtemp(prefix="nvc08r")
+        try:
+            # the recorded script names files of the run that found it: replay it under a new root
+            script = obj["script"]
+            roots = os.path.commonpath([op[1] for op in script])
+            moved = [[op[0], os.path.join(tmp, os.path.relpath(op[1], roots))] + op[2:] for op in script]
+            for op in moved:
+                os.makedirs(os.path.dirname(op[1]), exist_ok=True)
+            spath = os.path.join(tmp, "script.json")
+            with open(spath, "w", encoding="utf-8") as f:
+                json.dump(moved, f)
+            env = dict(os.environ, PYTHONPATH=core.REPO + os.pathsep + os.path.join(core.VERIF, "harness"), PYTHONDONTWRITEBYTECODE="1")
+            p = subprocess.run([sys.executable, "-m", "nv.real.helper_hist", spath], cwd=tmp, env=env, capture_output=True, text=True, timeout=300)
+            real = json.loads(p.stdout)
+            r = real[obj["position"]]
+            got = sorted(x for x in r.get("literals", []) if x != "7")
+            print(got, obj["want"])
+            bad = "err" in r or got != obj["want"]
+            if bad:
+                print("VIOLATION property=C08 replay=(replayed)")
+            return 1 if bad else 0
+        finally:
+            shutil.rmtree(tmp, ignore_errors=True)
     if obj.get("kind") == "failed-then-corrected":
         r = _Collect()
         failed_then_corrected(r)
